@@ -3,7 +3,7 @@
 #  the patch is what is applied there, the tree builds, the repository's test suite passes with it,
 #  the demonstration fails with the change and passes without it (clean worktree /tmp/mut_clean).
 # Writes /tmp/mut_<id>_out/confirm.log and prints a one-line verdict.
-id="$1"; wt=/tmp/mut_$id; out=/tmp/mut_${id}_out; log=$out/confirm.log
+id="$1"; pre="${2:-mut}"; wt=/tmp/${pre}_$id; out=/tmp/${pre}_${id}_out; log=$out/confirm.log
 : > $log
 [ -d /tmp/mut_clean ] || /verif/tools/mk_worktree.sh /tmp/mut_clean >>$log 2>&1
 cd $wt || exit 2
